@@ -61,8 +61,9 @@ def alloc_class(e, params, selfname):
 
 
 def function_effects(f):
-  g = cfgmod.CFG(f.node)
-  rd = dataflow.Reaching(g)
+  from mmsa.types import FuncCtx
+  ctx_ = FuncCtx.of(f)
+  g, rd = ctx_.g, ctx_.rd
   effs = effects.effects_of(f.node, g, rd)
   out = []
   for e in effs:
@@ -77,6 +78,7 @@ def function_effects(f):
     if f.outer is not None and f.outer.params:
       selfn = f.outer.params[0]
     e_cls = alloc_class(recv, f.params, selfn)
+    e.recv_ast = recv
     out.append((e, norm(recv), e_cls))
   return g, rd, out
 
@@ -109,27 +111,102 @@ def _conditional_alias(rep, f, g, rd, e):
   skip the copy.  Reported when such a path is feasible under the path conditions."""
   recv = e.target.value if e.kind in ('attr-store', 'item-store', 'delete') and isinstance(e.target, (ast.Attribute, ast.Subscript)) else e.target
   name = _root_name(recv)
-  if name is None or len(rd.defs_at(e.node, name)) < 2:
+  if name is None:
     return
   cands = _param_alias_defs(rd, e.node, name)
   if not cands:
     return
-  cand_nodes = {d.node.id: t for d, t in cands}
   try:
     for path in g.enumerate_paths(g.entry, lambda x: x is e.node, cfgmod.no_exc, max_paths=3000, back_limit=0):
       pf = pathcond.PathFacts(path, rd)
-      last = pf.env.get(name)
-      if last is None or last[0].node.id not in cand_nodes or not pf.feasible:
+      if not pf.feasible:
+        continue
+      # follow the chain of plain aliases along this path: par = result; result = parameters; parameters = self.parameters
+      nm, env, origin = name, pf.env, None
+      for _ in range(8):
+        last = env.get(nm)
+        if last is None:
+          break
+        d, env = last
+        if d.how != 'assign' or d.value is None:
+          break
+        if isinstance(d.value, ast.Name):
+          nm = d.value.id
+          continue
+        text = norm(rd.expand(d.node, d.value, aliases=True, pathenv=env)[0])
+        if PARAM_PAT.match(text) and '(' not in text:
+          origin = text
+        break
+      if origin is None:
         continue
       rep.violation('R1/parameters-read-only', f.qualname, norm(e.stmt)[:140],
                     '%s: %s writes through %s, which is %s (the caller\'s parameter object) on the path where %s: a search or query changes the user\'s TBRMMDesignParameters'
-                    % (f.name, norm(e.stmt)[:80], name, cand_nodes[last[0].node.id], pf.text()[:160] or 'no copy is taken'), f.loc(e.stmt))
+                    % (f.name, norm(e.stmt)[:80], name, origin, pf.text()[:160] or 'no copy is taken'), f.loc(e.stmt))
       return
   except Undecided as ex:
     rep.undecided('R1/parameters-read-only', '%s: %s' % (f.name, norm(e.stmt)[:60]), 'receiver %s may alias the parameter object; %s' % (name, ex), f.loc(e.stmt))
 
 
+def _returned_params(g):
+  """{parameter name: text of the path condition} for the parameters that function g hands back unchanged on a feasible
+  path (`return p`, possibly through plain local aliases); {} when none; raises Undecided when the paths are too many."""
+  from mmsa.types import FuncCtx
+  ctx = FuncCtx.of(g)
+  out = {}
+  for r in [n for n in ctx.g.nodes if n.kind == 'return' and n.ast.value is not None and isinstance(n.ast.value, ast.Name)]:
+    for path in ctx.g.enumerate_paths(ctx.g.entry, lambda x: x is r, cfgmod.no_exc, max_paths=3000, back_limit=0):
+      pf = pathcond.PathFacts(path, ctx.rd)
+      if not pf.feasible:
+        continue
+      name, env = r.ast.value.id, pf.env
+      for _ in range(6):
+        last = env.get(name)
+        if last is None:
+          if name in g.params:
+            out.setdefault(name, pf.text()[:120] or 'always')
+          break
+        d, env = last
+        if d.how == 'assign' and isinstance(d.value, ast.Name):
+          name = d.value.id
+        else:
+          break
+  return out
+
+
+def _alias_through_helper(repo, rep, T, f, rd, e):
+  """`par = helper(self.parameters, ..); par.x = v` where `helper` can return its argument unchanged: the store writes the
+  caller's object on that path of the helper."""
+  recv = getattr(e, 'recv_ast', None)
+  while isinstance(recv, (ast.Attribute, ast.Subscript)):
+    recv = recv.value
+  if not isinstance(recv, ast.Call):
+    return
+  t = T.callee(f, recv, e.node)
+  if not t or t[0] != 'func':
+    return
+  h = t[1]
+  off = 1 if h.kind in ('method', 'classmethod') else 0
+  try:
+    back = _returned_params(h)
+  except Undecided as ex:
+    rep.undecided('R1/parameters-read-only', '%s: %s' % (f.name, norm(e.stmt)[:60]), 'the helper %s may return its argument; %s' % (h.name, ex), f.loc(e.stmt))
+    return
+  for pname, cond in back.items():
+    i = h.params.index(pname) - off
+    a = recv.args[i] if 0 <= i < len(recv.args) else au.kwarg(recv, pname)
+    if a is None:
+      continue
+    text = norm(rd.expand(e.node, a, aliases=True)[0])
+    if PARAM_PAT.match(text) and '(' not in text:
+      rep.violation('R1/parameters-read-only', f.qualname, norm(e.stmt)[:140],
+                    '%s: %s writes through the result of %s(%s, ..), which hands its argument back unchanged on the path where %s: the store changes the caller\'s TBRMMDesignParameters'
+                    % (f.name, norm(e.stmt)[:80], h.name, text, cond), f.loc(e.stmt))
+      return
+
+
 def r1_parameters(repo, rep):
+  from mmsa import types as typesmod
+  T = typesmod.Types(repo)
   n = 0
   classes = [MM, 'tbrmmdiagnostics.TBRMMDiagnostics', 'tbrmmscore.TBRMMScore', 'tbrmmdesign.TBRMMDesign', 'tbrmmdata.TBRMMData', 'heapdict.HeapDict']
   for q in classes:
@@ -151,6 +228,8 @@ def r1_parameters(repo, rep):
                   % (f.name, norm(e.stmt)[:100]), f.loc(e.stmt), nontrivial=bool(hit))
         if not hit and cls_ == 'local' and e.kind in ('attr-store', 'item-store', 'delete', 'mutator-call'):
           _conditional_alias(rep, f, g, rd, e)
+        if not hit and e.kind in ('attr-store', 'item-store', 'delete', 'mutator-call'):
+          _alias_through_helper(repo, rep, T, f, rd, e)
   rep.floor('write sites scanned for parameter stores', n, 40)
   # interprocedural part: methods of the parameter class that write their own fields (directly or through another
   # method of the class) must not be invoked on a parameter object outside its construction
